@@ -3,8 +3,8 @@
 Complete enumeration of two finite table sets on the real code (both compiled unmodified, ASan):
 
   firmware  mframe_schedule() of layer1/mframe_sched.c is stepped through a full 51*26*8 = 10608
-            frame cycle (the first and the last cycle of the hyperframe) with exactly one multiframe
-            task enabled, for every task; a stub tdma_schedule_set() records (fn, frame offset,
+            frame cycle (quick: the first and the last cycle of the hyperframe; thorough: eight of its
+            256 cycles) with exactly one multiframe task enabled, for every task; a stub tdma_schedule_set() records (fn, frame offset,
             item set identity, p3).
   trxcon    l1sched_mframe_layout(config, tn) of sched_mframe.c for every channel combination value
             and tn 0..7, then frames[fn % period] for every fn of the cycle.
@@ -22,6 +22,7 @@ Complete enumeration of two finite table sets on the real code (both compiled un
     stacks implement returns a layout of that combination whose slotmask contains tn.
 """
 import os
+import re
 
 from vlib import cbuild
 from vlib.errors import HarnessError
@@ -89,6 +90,17 @@ TWO_BURST = ("L1SCHED_TCHH_0", "L1SCHED_TCHH_1")
 
 # --- build / run / parse -------------------------------------------------------------------------
 
+def _san(err):
+    """Deterministic digest of a sanitizer report (addresses, pids and shadow dumps vary per run)."""
+    keep = [l.strip() for l in err.splitlines()
+            if re.search(r"ERROR: AddressSanitizer|runtime error|is located|SUMMARY|^\s*#[0-3] ", l)]
+    txt = " | ".join(keep[:8]) if keep else err.strip()[-300:]
+    txt = re.sub(r"0x[0-9a-fA-F]+", "0x..", txt)
+    txt = re.sub(r"==\d+==", "", txt)
+    txt = re.sub(r"/build/[A-Za-z0-9_]+\.\d+/", "/build/../", txt)
+    return re.sub(r"\(BuildId: [0-9a-f]+\)", "", txt)
+
+
 def _build(name):
     b = cbuild.builddir(name)
     drv = os.path.join(cbuild.CSRC, "drv_c11.c")
@@ -126,11 +138,29 @@ def _run_fw(ctx, exe, args=()):
     crashed = None
     if rc != 0:
         crashed = [n for n, t in tasks.items() if not t["done"]]
-        crashed = (crashed[0] if crashed else "?", rc, err.decode()[-700:])
+        crashed = (crashed[0] if crashed else "?", rc, _san(err.decode()))
     return tasks, info, crashed
 
 
-def _run_trx(exe, args=()):
+def _run_trx(exe):
+    """All (config, tn) queries; when the driver dies in one of them (sanitizer report), the death is
+    recorded and the remaining queries are made one per process."""
+    lch, pch, queries, crash = _run_trx_once(exe, [])
+    crashes = [crash] if crash else []
+    if crash and "_GSM_PCHAN_MAX" in pch:
+        done = {(q["config"], q["tn"]) for q in queries}
+        for c in list(range(pch["_GSM_PCHAN_MAX"] + 2)) + [255]:
+            for t in range(8):
+                if (c, t) in done:
+                    continue
+                _, _, qs, cr = _run_trx_once(exe, [c, t])
+                queries += qs
+                if cr:
+                    crashes.append(cr)
+    return lch, pch, queries, crashes
+
+
+def _run_trx_once(exe, args):
     rc, out, err = cbuild.run(exe, args)
     lch, pch, queries, cur = {}, {}, [], None
     for line in out.decode().splitlines():
@@ -158,7 +188,7 @@ def _run_trx(exe, args=()):
     crashed = None
     if rc != 0:
         q = queries[-1] if queries else {"config": -1, "tn": -1}
-        crashed = (q["config"], q["tn"], rc, err.decode()[-900:])
+        crashed = (q["config"], q["tn"], rc, _san(err.decode()))
     return lch, pch, queries, crashed
 
 
@@ -200,8 +230,7 @@ def _check(ctx_like, fwres, trxres):
     nl = lch["_L1SCHED_CHAN_MAX"]
 
     # ---- (b) trxcon-internal ------------------------------------------------------------------
-    if tcrash:
-        c, tn, rc, err = tcrash
+    for c, tn, rc, err in tcrash:
         viol("C11:trxcon:crash:%s" % pname.get(c, c), {"side": "trx", "config": c, "tn": tn},
              "trxcon driver died (rc=%d) in l1sched_mframe_layout(%s, %d) / frames[fn %% period]: %s"
              % (rc, pname.get(c, c), tn, err))
@@ -227,6 +256,8 @@ def _check(ctx_like, fwres, trxres):
         if not lay["slotmask"] >> tn & 1:
             viol("C11:trxcon:lookup:%s:slotmask" % pn, case,
                  "l1sched_mframe_layout(%s, tn=%d) returned '%s' with slotmask 0x%02x" % (pn, tn, lay["name"], lay["slotmask"]))
+        if lay["has_frames"] and lay["period"] and q["frames"] is None and (c, tn) in {x[:2] for x in tcrash}:
+            continue        # the driver died in this table walk: reported above
         if not lay["has_frames"] or lay["period"] == 0 or q["frames"] is None:
             viol("C11:trxcon:lookup:%s:no-table" % pn, case,
                  "layout '%s' for (%s, tn=%d) has period %d and %s frame table"
@@ -238,11 +269,10 @@ def _check(ctx_like, fwres, trxres):
         cov["trxcon_lookups"] += CYCLE
         tables[pn, tn] = (lay, fr)
         lid = "%s/0x%02x" % (pn, lay["slotmask"])
-        if lay["idx"] in seen_layout:
-            if seen_layout[lay["idx"]] != fr:
-                raise HarnessError("same layout, different dumps")
-            continue
-        seen_layout[lay["idx"]] = fr
+        ident = (lay["chan_config"], lay["slotmask"], lay["period"], lay["lchan_mask"], lay["name"])
+        if seen_layout.get(ident) == fr:
+            continue        # the same layout (returned for another tn): internal checks done once
+        seen_layout[ident] = fr
         cov["trxcon_layouts"] += 1
         P = lay["period"]
         for d, o in (("dl", 0), ("ul", 2)):
@@ -362,7 +392,9 @@ def _count_tdt(fwres, trxres):
 def run(ctx):
     b, fw, trx = _build("c11")
     try:
-        bases = [0, HYPER - CYCLE]
+        # the mapping is a function of fn modulo the cycle; quick walks the first and the last cycle of the
+        # hyperframe, thorough eight of the 256 cycles (both ends, the middle and their neighbours)
+        bases = [0, HYPER - CYCLE] if ctx.quick else [k * CYCLE for k in (0, 1, 2, 127, 128, 129, 254, 255)]
         fwres = [_run_fw(ctx, fw, ["all", b_]) for b_ in bases]
         trxres = _run_trx(trx)
         if not trxres[0] or not trxres[1]:
@@ -378,13 +410,13 @@ def run(ctx):
         c["fw_tasks_not_compared"] = sorted(t for t in fwres[0][0] if t not in CORR)
         c["evaluations"] = cov["fw_frames_walked"] + cov["trxcon_lookups"] + cov["xstack_frames_compared"]
         c["distinct_nontrivial"] = cov["xstack_nontrivial"] + cov["bid_cycles_checked"]
-        c["rule"] = ("every multiframe task x every fn of the 10608-frame cycle (first and last cycle of the hyperframe) "
+        c["rule"] = ("every multiframe task x every fn of the 10608-frame cycle (at the cycle bases listed in fw_cycle_bases) "
                      "through mframe_schedule(); every channel combination value x tn 0..7 through l1sched_mframe_layout() "
                      "and every fn of the cycle through frames[fn % period]; every (task, combination, tn, direction, "
                      "lchan) leg of the correspondence table compared as sets over the whole cycle - a comparison is "
                      "non-trivial when the expected set is not empty; every (layout, direction, block lchan) bid sequence")
         ntasks = len(fwres[0][0])
-        c["exhaustive"] = bool(all(r[2] is None for r in fwres) and trxres[3] is None
+        c["exhaustive"] = bool(all(r[2] is None for r in fwres) and not trxres[3]
                                and cov["fw_tasks_walked"] == ntasks * len(bases)
                                and all(t["done"] for r in fwres for t in r[0].values())
                                and cov["trxcon_queries"] == (trxres[1]["_GSM_PCHAN_MAX"] + 3) * 8)
